@@ -70,6 +70,8 @@ class C03(Oracle):
                 # original service dates restored (the repo's test_resuming_interruption_after_blockage pins that)
                 if ty != "renege" and not (r.service_start_date >= last_int_exit) and "srvpre+blocking" not in self.R.feats:
                     F("restart-before-interruption", "ind %s record %d restarts at %r, interrupted at %r" % (iid, k, r.service_start_date, last_int_exit))
+                if not (r.exit_date >= last_int_exit) and "srvpre+blocking" not in self.R.feats:
+                    F("records-not-in-order", "ind %s record %d (%s) ends at %r, the interruption before it at %r" % (iid, k, ty, r.exit_date, last_int_exit))
             elif exp_arrival is not None and r.arrival_date != exp_arrival:
                 F("gap-between-records", "ind %s record %d begins at %r, previous ended at %r" % (iid, k, r.arrival_date, exp_arrival))
             if ty == "interrupted service" and isnan(r.destination):
